@@ -3,14 +3,16 @@
 E2 bounded enumeration on the real Material / Substance classes.
 
   material   every ordered tuple of 1..3 distinct substances from {H2O, NaCl, O2, Ar, CO2} x proportions from
-             {1, 2, 0.5, 78.084}^k x common scaling {1, 2, 0.1, 100} x normalisation {number, mass fractions} x
+             {1, 2, 0.5, 78.084}^k x common scaling {1, 2, 0.1, 100, 1e-6, 1e-9, 1e-12} x normalisation {number, mass fractions} x
              isotope mode {natural, most abundant}.  The oracle is always computed from the UNscaled proportions,
              so every scaled case checks the scaling invariance.
   duality    for every unscaled number-fraction material: rebuild it from the mass fractions X it reports
              (Norm.MASS_FRACTION) and compare x and X.
   substance  x and X over the atoms of 8 formulas (Norm.NUMBER), also after multiplying the substance by {2, 3, 0.5}.
-  string     materials given as expression strings "p <A> p <B> [p <C>]": every tuple of proportion spellings from 12
-             (decimals, integer, unsigned / signed / upper-case exponents of unequal size) x both normalisation modes x
+  trace      a tiny positive proportion {8.7e-8, 1e-9, 1e-12} at every position next to proportions {1, 78.084}, all 20
+             ordered pairs and the 6 orders of one triple, common scale {1, 1e-3}, both normalisation modes (dict form).
+  string     materials given as expression strings "p <A> p <B> [p <C>]": every tuple of proportion spellings from 14
+             (decimals, integer, unsigned / signed / upper-case exponents of unequal size, two trace values) x both normalisation modes x
              both isotope modes; oracle = closed formulas for float(spelling) + the same material given as a dict.
   history    E1 exploration of operation histories on LIVE composites: Substance CO2, Material by number and by mass
              fractions (dictionary and string input) x every sequence of 1..2 (thorough 3) operations from
@@ -44,8 +46,8 @@ ASSUMPTIONS = [
 
 SUBSTANCES = ["H2O", "NaCl", "O2", "Ar", "CO2"]
 PROPS = [1, 2, 0.5, 78.084]
-SCALES = [1, 2, 0.1, 100]
-NWIN = 8                         # quick: k <= 2 complete, k = 3 one window of NWIN; thorough: everything
+SCALES = [1, 2, 0.1, 100, 1e-6, 1e-9, 1e-12]
+NWIN = 16                        # quick: k <= 2 complete, k = 3 one window of NWIN; thorough: everything
 
 SUB_FORMULAS = ["H2O", "NaCl", "O2", "Ar", "CO2", "Ca(OH)2", "C2H5OH", "Fe{56+3}2O{-2}3"]
 SUB_ATOMS = {           # written by hand: species -> count (the oracle never parses)
@@ -58,9 +60,18 @@ SUB_MULT = [None, 2, 3, 0.5]
 # materials given as expression STRINGS "p <substance> p <substance> ...": every tuple of proportion spellings
 # (plain decimals, integers, unsigned / signed / upper-case exponents of unequal size), compared with the closed
 # formulas for float(spelling) and with the same material given as a dictionary
-SPELLINGS = ["0.2", "3.5", "2", "78.084", "0.9999", "1.0e-4", "2.5e-3", "2e-07", "3.5e-06", "7.5e+1", "1e3", "1.5E-2"]
+SPELLINGS = ["0.2", "3.5", "2", "78.084", "0.9999", "1.0e-4", "2.5e-3", "2e-07", "3.5e-06", "7.5e+1", "1e3", "1.5E-2",
+             "8.7e-08", "1e-12"]
 STR_SUBSTANCES = {2: ["H2O", "NaCl"], 3: ["H2O", "NaCl", "O2"]}
-NWIN_STR = 8                     # quick: k = 2 complete, k = 3 one window of NWIN_STR; thorough: everything
+NWIN_STR = 12                    # quick: k = 2 complete, k = 3 one window of NWIN_STR; thorough: everything
+
+# trace components: a tiny but positive proportion next to large ones (dictionary form), at two common scales.  The
+# statement makes x and X depend on the RATIOS of the proportions only, so a component may never vanish because
+# its proportion is small in absolute terms.
+TRACE_VALUES = [8.7e-8, 1e-9, 1e-12]
+TRACE_OTHERS = [1, 78.084]
+TRACE_SCALES = [1, 1e-3]
+TRACE_TRIPLE = ["H2O", "NaCl", "O2"]         # k = 3: the 6 orders of this triple; k = 2: all 20 ordered pairs
 
 # operation histories on live composites (E1): every sequence of 1..HDEPTH operations on every start object
 HIST_STARTS = {   # id -> (class, constructor argument, amounts written by hand, normalisation mode)
@@ -265,6 +276,18 @@ def check_history(start, natural, history):
     return None, amounts
 
 
+def _trace_cases(subs):
+    k = len(subs)
+    for pos in range(k):
+        for t in TRACE_VALUES:
+            for others in itertools.product(TRACE_OTHERS, repeat=k - 1):
+                props = list(others)
+                props.insert(pos, t)
+                for scale in TRACE_SCALES:
+                    for norm in ("number", "mass"):
+                        yield tuple(props), scale, norm
+
+
 # ------------------------------------------------------------------------------------------ plan / shards
 def _tuples():
     out = []
@@ -279,6 +302,8 @@ def plan(tier, seed):
     for t in _tuples():
         for nat in (False, True):
             shards.append(("material", t, nat, win))
+    for t in list(itertools.permutations(SUBSTANCES, 2)) + list(itertools.permutations(TRACE_TRIPLE, 3)):
+        shards.append(("trace", t))
     wins = None if tier == "thorough" else seed % NWIN_STR
     for k in (2, 3):
         for first in SPELLINGS:
@@ -311,6 +336,19 @@ def run_shard(desc):
                         sh.fail(bad)
                     _restore()
         sh.sample(dict(kind="substance", formula="Ca(OH)2", mult=0.5))
+        return sh
+    if desc[0] == "trace":
+        subs = desc[1]
+        for props, scale, norm in _trace_cases(subs):
+            bad = check_material(subs, props, scale, norm, False)
+            sh.evaluations += 1
+            sh.nontrivial += 1
+            sh.count("trace:k=%d" % len(subs))
+            if bad:
+                bad["tags"] = sorted(set(bad["tags"]) | {"trace-component"})
+                sh.fail(bad)
+            _restore()
+        sh.sample(dict(kind="material", subs=list(subs), props=[8.7e-8] + [78.084] * (len(subs) - 1), scale=1e-3))
         return sh
     if desc[0] == "string":
         _, k, first, win = desc
@@ -400,7 +438,7 @@ def finish(total, tier, seed):
                 "substance"):
         if not h.get(key):
             raise HarnessError("vacuous run: no case under " + key)
-    for key in ("string:k=2", "string:k=3", "string:signed-exponent"):
+    for key in ("string:k=2", "string:k=3", "string:signed-exponent", "trace:k=2", "trace:k=3"):
         if not h.get(key):
             raise HarnessError("vacuous run: no case under " + key)
     for key in ("add-existing", "add-new", "plus-shared", "plus-shared-last", "plus-disjoint", "mul"):
@@ -418,6 +456,8 @@ def finish(total, tier, seed):
         full_space=full, duality_cases=h.get("duality", 0),
         states=len(hstates), transitions=total.transitions, traces_validated_against_impl=total.traces,
         max_depth=total.max_depth,
+        trace_bounds=dict(values=TRACE_VALUES, others=TRACE_OTHERS, scales=TRACE_SCALES, position="every",
+                          tuples="20 ordered pairs + 6 orders of %s" % TRACE_TRIPLE, modes=["number", "mass"]),
         string_bounds=dict(spellings=SPELLINGS, substances=STR_SUBSTANCES, modes=["number", "mass"],
                            isotope_modes=["natural", "abundant"],
                            window="all" if tier == "thorough" else
@@ -433,13 +473,15 @@ def finish(total, tier, seed):
 
 MANIFEST = dict(
     text="Bounded-exhaustive enumeration of mixtures on the real Material class: every ordered tuple of 1-3 substances "
-         "from {H2O, NaCl, O2, Ar, CO2} x proportions {1, 2, 0.5, 78.084}^k x common scaling {1, 2, 0.1, 100} x both "
-         "normalisation modes x both isotope modes (66 880 materials; quick: k<=2 complete plus one seed-selected "
-         "window of 8 for k=3). x and X are compared with the closed formulas computed from the UNscaled proportions "
+         "from {H2O, NaCl, O2, Ar, CO2} x proportions {1, 2, 0.5, 78.084}^k x common scaling {1, 2, 0.1, 100, 1e-6, 1e-9, "
+         "1e-12} x both normalisation modes x both isotope modes (117 040 materials; quick: k<=2 complete plus one "
+         "seed-selected window of 16 for k=3); trace proportions {8.7e-8, 1e-9, 1e-12} at every position next to "
+         "{1, 78.084} at scales {1, 1e-3}. x and X are compared with the closed formulas computed from the UNscaled proportions "
          "(rel 1e-10), sums with 100 (abs 1e-9); every unscaled number-fraction material is rebuilt from its reported "
          "mass fractions and must report the same x and X (rel 1e-9); the same formulas are checked over the atoms of "
-         "8 substances and their multiples. Materials written as expression strings: all 12^2 (quick: + one window of "
-         "8 of the 12^3) tuples of proportion spellings incl. signed, unsigned and upper-case exponents x modes, vs the "
+         "8 substances and their multiples. Materials written as expression strings: all 14^2 (quick: + one window of "
+         "12 of the 14^3) tuples of proportion spellings incl. signed, unsigned and upper-case exponents and trace "
+         "values x modes, vs the "
          "closed formulas and the dictionary twin. Live composites: every history of <= 2 (thorough 3) operations "
          "{add existing/new, + sharing/disjoint, * k} on 5 start objects x 2 isotope modes, vs closed formulas and a "
          "freshly constructed composite.",
